@@ -959,7 +959,10 @@ impl Ontology {
         // is linked to roughly half of all diseases
         let phenotype_ids: HpoGroup = terms
             .iter()
-            .filter(|term| (term.all_parents() & self.modifier()).is_empty())
+            .filter(|term| {
+                !self.modifier().contains(term.id())
+                    && (term.all_parents() & self.modifier()).is_empty()
+            })
             .map(|term| *term.id())
             .collect();
 
